@@ -5,6 +5,7 @@ sys.path.insert(0, os.path.dirname(os.path.dirname(os.path.abspath(__file__))))
 from harness import build, common
 pid = sys.argv[1]
 ctx = common.Ctx(pid, sys.argv[2] if len(sys.argv) > 2 else 'quick', int(os.environ.get('VERIF_SEED', '0')))
+ctx.replay = None      # (runner.main sets it; some modules read it)
 mod = importlib.import_module('harness.props.' + pid.lower())
 scratch = build.build_impl('normal')
 mod.run(ctx, scratch)
